@@ -301,12 +301,20 @@ def shard(ctx, k, payload):
 
     def body(data):
         p = data.draw(scenario.personas())
+        tie = data.draw(st.sampled_from([None, None, None, 'nc', 'fed']))
+        if tie == 'nc':
+            p.update(forms=['1040', 'nc_d-400'], nc_itemize=True, n_1098=max(1, p['n_1098']))
+            p = scenario.constrain(p)
+        elif tie == 'fed':
+            p.update(itemize=True, n_1098=max(1, p['n_1098']))
         sc, r0 = scenario.build(p, data.draw)
         if r0.exc is not None or not r0.verdict:
             ctx.count('base_not_solved')
             return
         inputs = dict(sc['inputs'])
         mode = data.draw(st.sampled_from(['adversarial', 'adversarial', 'adversarial', 'plain', 'overlong']))
+        if tie is not None:
+            mode = 'plain'      # a box-limit error would end the fill before the set of filed forms can be seen
         str_keys = []
         for key in sorted(inputs):
             inp = r0.solver._input_map.get(key)
@@ -317,12 +325,12 @@ def shard(ctx, k, payload):
                 if data.draw(st.integers(0, 2)) == 0:
                     t = adversarial_text(data.draw)
                     if mode == 'overlong' and data.draw(st.integers(0, 3)) == 0:
-                        t = t + 'X' * data.draw(st.sampled_from([10, 30, 60]))
+                        t = t + data.draw(st.sampled_from(['X' * 10, 'X' * 30, 'X' * 60, '-Xy' * 4, 'Smith-Jones-Featherstonehaugh', '-' * 15, '27511-12345']))
                     inputs[key] = t.replace('%', '%%')
-        if '1098:0.box_1' in inputs and data.draw(st.integers(0, 2)) == 0:
+        if '1098:0.box_1' in inputs and tie is not None:
             # tie: move the mortgage interest so that the itemized total equals the standard deduction to the dollar
             # (N.C. or federal); which forms are filed must still follow the line the return claims
-            which = data.draw(st.sampled_from([('nc_d-400_sa.10', 'nc_d-400_sa.nc_standard_deduction'), ('1040_sa.17', None)]))
+            which = ('nc_d-400_sa.10', 'nc_d-400_sa.nc_standard_deduction') if tie == 'nc' else ('1040_sa.17', None)
             cur, rr = dict(inputs), r0
             for _ in range(3):
                 vals_ = rr.values
